@@ -69,6 +69,7 @@ def run(tier, seed):
     complete = {}
     done_long = set()
     done_ops = set()
+    done_runs = set()
     shapes = 0
     for kind, alpha, lens, rnd in plans:
         b = build.build(kind)["vdriver"]
@@ -131,6 +132,27 @@ def run(tier, seed):
                             what = r.get("violation") or ("panic: %s" % r.get("panic"))
                             acc.violate(sig_of("operator-sequence: " + str(what)), "%s [%s]: input %r" % (what, kind, s_), {"input": s_, "build": kind, "what": what})
                 acc.count("operator_sequences_with_to_" + kind, opsq)
+            # every run length 1..600 of a repeated token pattern (a unit product, blank-separated unit words, a chain of `/`, a
+            # sentence of words, stray closing brackets, a chain of calls) in front of more arithmetic: counters of tokens, nodes or
+            # checkpoints that wrap at 2^8 or 2^9 (seed C12-j: a u8 generation counter makes a checkpoint look fresh after exactly
+            # 256 k tokens)
+            if kind not in done_runs:
+                done_runs.add(kind)
+                runs_ = []
+                for n_ in range(1, 601):
+                    if kind == "dbg" and n_ % 2 == (seed % 2) and n_ not in (126, 127, 128, 254, 255, 256, 510, 511, 512):
+                        continue
+                    runs_ += ["1 m" + "*m" * n_ + " + 2 * 3", "1 m" + " m" * n_ + " * 2", "1 m" + "/s" * n_ + " to m", "a" + " b" * n_ + " * 2",
+                              "1*2*)" + ")" * n_ + "3*4", "1 + " * n_ + "1", "round(" * min(n_, 300) + "1" + ")" * min(n_, 300)]
+                nr = 0
+                for i_ in range(0, len(runs_), 500):
+                    for s_, r in zip(runs_[i_:i_ + 500], d.call_many([{"op": "lex", "s": x, "brief": True} for x in runs_[i_:i_ + 500]], timeout=900)):
+                        nr += 1
+                        acc.evaluations += 1
+                        if "ok" not in r:
+                            what = r.get("violation") or ("panic: %s" % r.get("panic"))
+                            acc.violate(sig_of("run-length: " + str(what)), "%s [%s]: input %r... (%d bytes)" % (what, kind, s_[:30], len(s_)), {"input": s_, "build": kind, "what": what})
+                acc.count("run_length_sweep_inputs_" + kind, nr)
             # a few concrete samples through the per-item op
             for s in ["1 + {a b}", "3 * (1 + 2) to m", "°C'x…", "1e+", "round(1.5 , 2 )"]:
                 r = d.call({"op": "lex", "s": s})
